@@ -178,7 +178,7 @@ impl Imager {
         // nothing may appear next to the scratch directory either (a side file beside the user's temp folder)
         if let Some(work) = self.scratch.parent() {
             if let Ok(rd) = std::fs::read_dir(work) {
-                let extra: Vec<String> = rd.filter_map(|e| e.ok()).map(|e| e.file_name().to_string_lossy().to_string()).filter(|n| !matches!(n.as_str(), "env" | "scratch" | "image" | "upg" | "a-file")).collect();
+                let extra: Vec<String> = rd.filter_map(|e| e.ok()).map(|e| e.file_name().to_string_lossy().to_string()).filter(|n| !matches!(n.as_str(), "env" | "scratch" | "image" | "upg" | "a-file" | "control" | "control-scratch")).collect();
                 if !extra.is_empty() {
                     return Err(("side_channel_file".into(), format!("a crash now would leave {extra:?} next to the temp directory")));
                 }
@@ -229,11 +229,29 @@ impl Imager {
             let mut ex = Exec::on_existing(&mini, &self.image_dir, &self.scratch, world.clone(), exp.clone(), self.sys.clone());
             let r = ex.run_steps();
             let o = ex.finish_nested();
-            if let Some(v) = o.violation {
-                return Err(("post_crash_history".into(), format!("continuing on the restarted image: {:?} {}: {}", v.properties, v.kind, v.detail)));
-            }
-            if let Err(Stop::Unevaluable(s)) = r {
-                return Err(("post_crash_history".into(), format!("continuing on the restarted image failed: {s}")));
+            let failed: Option<String> = match (&o.violation, &r) {
+                (Some(v), _) => Some(format!("{:?} {}: {}", v.properties, v.kind, v.detail)),
+                (None, Err(Stop::Unevaluable(s))) => Some(format!("failed: {s}")),
+                _ => None,
+            };
+            if let Some(what) = failed {
+                // is the crash to blame? the same continuation on a freshly written copy of the same
+                // version (no crash, no restart) decides: a finding that shows there too belongs to
+                // another property and is not C09's
+                let control_dir = self.image_dir.with_file_name("control");
+                // (with a scratch directory of its own: whatever the killed process left behind in the real
+                // one is part of the crash)
+                let control_scratch = self.image_dir.with_file_name("control-scratch");
+                let _ = std::fs::remove_dir_all(&control_scratch);
+                let _ = std::fs::create_dir_all(&control_scratch);
+                let same_without_crash = control_continuation(&mini, &control_dir, &control_scratch, world, exp, self.sys.clone(), self.plan.cfg.map_size);
+                let _ = std::fs::remove_dir_all(&control_dir);
+                let _ = std::fs::remove_dir_all(&control_scratch);
+                match same_without_crash {
+                    Some(true) => return Err(("unevaluable".into(), format!("the continuation fails with and without the crash: {what}"))),
+                    Some(false) => return Err(("post_crash_history".into(), format!("continuing on the restarted image: {what} (the same continuation on an uncrashed copy of that version runs clean)"))),
+                    None => return Err(("harness".into(), "the control environment could not be written".into())),
+                }
             }
             queries += o.stats.queries;
             post = 1;
@@ -241,6 +259,27 @@ impl Imager {
         let _ = std::fs::remove_dir_all(&self.image_dir);
         Ok((queries, post))
     }
+}
+
+/// Run `mini` on a new environment holding exactly `dump`, written through ordinary puts.
+/// Some(true): it fails there as well; Some(false): clean; None: the environment could not be made.
+fn control_continuation(mini: &Plan, dir: &Path, scratch: &Path, world: &World, dump: &Dump, sys: Arc<crate::interpose::SysState>, map_size: usize) -> Option<bool> {
+    let _ = std::fs::remove_dir_all(dir);
+    std::fs::create_dir_all(dir).ok()?;
+    {
+        let env = unsafe { heed::EnvOpenOptions::new().read_txn_without_tls().map_size(map_size).max_readers(16).open(dir) }.ok()?;
+        let mut wtxn = env.write_txn().ok()?;
+        let db: RawDb = env.create_database::<heed::types::Bytes, heed::types::Bytes>(&mut wtxn, None).ok()?;
+        for (k, v) in dump {
+            db.put(&mut wtxn, k, v).ok()?;
+        }
+        wtxn.commit().ok()?;
+        env.prepare_for_closing().wait();
+    }
+    let mut ex = Exec::on_existing(mini, dir, scratch, world.clone(), dump.clone(), sys);
+    let r = ex.run_steps();
+    let o = ex.finish_nested();
+    Some(o.violation.is_some() || matches!(r, Err(Stop::Unevaluable(_))))
 }
 
 impl Observer for Imager {
@@ -282,6 +321,7 @@ pub fn run_mode(plan: &Plan, workdir: &Path, kill_at: Option<u64>, keep: bool) -
     let ts = Turnstile::new(plan.cfg.sched_seed, &plan.cfg.sched, plan.cfg.pool.max(1));
     ts.adopt_running(WRITER);
     let mut ex = Exec::new(plan, workdir, Some(ts));
+    ex.keep_going_on_broken_forest = true;
     crate::ctx::set_active(Some(ex.ctx.clone()));
     ex.sys.torn.store(plan.params.get("torn").copied().unwrap_or(0) == 1, Ordering::SeqCst);
     let empty = ex.dump_current();
@@ -328,8 +368,12 @@ pub fn run_mode(plan: &Plan, workdir: &Path, kill_at: Option<u64>, keep: bool) -
             if k == "harness" {
                 crate::exec::harness_error(&e);
             }
-            let _ = ex.report(&["C09"], &k, e);
-            res = Err(Stop::Violation);
+            if k == "unevaluable" {
+                res = Err(Stop::Unevaluable(e));
+            } else {
+                let _ = ex.report(&["C09"], &k, e);
+                res = Err(Stop::Violation);
+            }
         }
         if res.is_err() {
             break;
